@@ -1,7 +1,7 @@
 (* C30 — proofs, part 1: Go's net.IP classification + pdfcpu's blocked predicate  =  the RFC spec.
    Byte-level case reasoning: the only enumerations are over ONE byte (256 values) for the four bit-mask
    identities; addresses are never enumerated. *)
-From Coq Require Import ZArith NArith List Bool Lia ZifyBool ZifyNat ZifyN.
+From Coq Require Import ZArith NArith List Bool Lia ZifyBool ZifyNat ZifyN Btauto.
 From PV Require Import C30.Model C30.Spec.
 Import ListNotations.
 Open Scope N_scope.
@@ -145,8 +145,170 @@ Proof.
   cbn [To4 length Nat.eqb at_ nth].
   rewrite (land_240 a1 H1), (land_240 a0 H0).
   unfold Equal, IPv4zero, IPv6unspecified, IPv4. cbn.
-  remember (a1 / 16) as q1 eqn:Q1. remember (a0 / 16) as q0 eqn:Q0.
-  assert (B1 : 16 * q1 <= a1 < 16 * q1 + 16) by (subst q1; lia).
-  assert (B0 : 16 * q0 <= a0 < 16 * q0 + 16) by (subst q0; lia).
-  clear Q1 Q0. lia.
+  assert (R1 : (a0 * 16 + a1 / 16 =? 2753) = (a0 =? 172) && (a1 / 16 * 16 =? 16)) by lia.
+  assert (R2 : (a0 * 256 + a1 =? 49320) = (a0 =? 192) && (a1 =? 168)) by lia.
+  assert (R3 : (a0 * 256 + a1 =? 43518) = (a0 =? 169) && (a1 =? 254)) by lia.
+  assert (R4 : (a0 / 16 * 16 =? 224) = (a0 / 16 =? 14)) by (generalize (a0 / 16); clear; intros x; lia).
+  rewrite R1, R2, R3, R4. clear R1 R2 R3 R4.
+  destruct (a0 =? 224) eqn:E224.
+  - assert (R5 : (a0 / 16 =? 14) = true) by lia. rewrite R5. btauto.
+  - btauto.
+Qed.
+
+(* ---- 16-byte addresses *)
+Lemma Equal_same a x : length a = length x -> Equal a x = list_eqb a x.
+Proof. intros H. unfold Equal. rewrite H, Nat.eqb_refl. reflexivity. Qed.
+
+Lemma To4_16 a0 a1 a2 a3 a4 a5 a6 a7 a8 a9 a10 a11 a12 a13 a14 a15 :
+  To4 [a0;a1;a2;a3;a4;a5;a6;a7;a8;a9;a10;a11;a12;a13;a14;a15] =
+  if list_eqb [a0;a1;a2;a3;a4;a5;a6;a7;a8;a9;a10;a11] v4InV6Prefix then Some [a12;a13;a14;a15] else None.
+Proof.
+  unfold To4, v4InV6Prefix.
+  cbn [length Nat.eqb slice skipn firstn Nat.sub isZeros forallb at_ nth list_eqb andb].
+  repeat (match goal with |- context [N.eqb ?x ?y] => destruct (N.eqb x y) end;
+          cbn [andb]; try reflexivity).
+Qed.
+
+Lemma blocked_mapped a b c d : revocationBlockedIP (IPv4 a b c d) = revocationBlockedIP [a;b;c;d].
+Proof.
+  unfold revocationBlockedIP, IsLoopback, IsPrivate, IsLinkLocalUnicast, IsLinkLocalMulticast,
+    IsMulticast, IsUnspecified, Equal, IPv4zero, IPv6unspecified, IPv4, To4, v4InV6Prefix.
+  cbn. btauto.
+Qed.
+
+Lemma T32_P l : length l = 4%nat -> P256 l = T32.
+Proof. intros H. unfold P256. rewrite H. reflexivity. Qed.
+Lemma T112_P l : length l = 14%nat -> P256 l = T112.
+Proof. intros H. unfold P256. rewrite H. reflexivity. Qed.
+Lemma T120_P l : length l = 15%nat -> P256 l = T120.
+Proof. intros H. unfold P256. rewrite H. reflexivity. Qed.
+
+Lemma blocked16 a0 a1 a2 a3 a4 a5 a6 a7 a8 a9 a10 a11 a12 a13 a14 a15 :
+  bytes [a0;a1;a2;a3;a4;a5;a6;a7;a8;a9;a10;a11;a12;a13;a14;a15] ->
+  revocationBlockedIP [a0;a1;a2;a3;a4;a5;a6;a7;a8;a9;a10;a11;a12;a13;a14;a15] = spec_v6 (num [a0;a1;a2;a3;a4;a5;a6;a7;a8;a9;a10;a11;a12;a13;a14;a15]).
+Proof.
+  intros HB. rewrite spec_v6_alt.
+  assert (HB' := HB). unfold bytes in HB'.
+  repeat (match type of HB' with Forall _ (_ :: _) => let h := fresh "Hb" in let t := fresh "Ht" in
+            inversion HB' as [|? ? h t]; subst; clear HB'; rename t into HB' end).
+  clear HB'.
+  assert (B4 : bytes [a12;a13;a14;a15]) by (repeat constructor; assumption).
+  assert (B14 : bytes [a2;a3;a4;a5;a6;a7;a8;a9;a10;a11;a12;a13;a14;a15]) by (repeat constructor; assumption).
+  assert (B15 : bytes [a1;a2;a3;a4;a5;a6;a7;a8;a9;a10;a11;a12;a13;a14;a15]) by (repeat constructor; assumption).
+  assert (B12 : bytes [a0;a1;a2;a3;a4;a5;a6;a7;a8;a9;a10;a11]) by (repeat constructor; assumption).
+  destruct (num_split [a0;a1;a2;a3;a4;a5;a6;a7;a8;a9;a10;a11] [a12;a13;a14;a15] B4) as [D32 M32].
+  rewrite (T32_P [a12;a13;a14;a15] eq_refl) in D32, M32.
+  destruct (num_split [a0] [a1;a2;a3;a4;a5;a6;a7;a8;a9;a10;a11;a12;a13;a14;a15] B15) as [D120 _].
+  rewrite (T120_P [a1;a2;a3;a4;a5;a6;a7;a8;a9;a10;a11;a12;a13;a14;a15] eq_refl) in D120.
+  destruct (num_split [a0;a1] [a2;a3;a4;a5;a6;a7;a8;a9;a10;a11;a12;a13;a14;a15] B14) as [D112 _].
+  rewrite (T112_P [a2;a3;a4;a5;a6;a7;a8;a9;a10;a11;a12;a13;a14;a15] eq_refl) in D112.
+  cbn [app] in D32, M32, D120, D112.
+  rewrite D32, M32, D120, D112. clear D32 M32 D120 D112.
+  replace (num [a0]) with a0 by (unfold num; cbn [fold_left]; lia).
+  replace (num [a0; a1]) with (a0 * 256 + a1) by (unfold num; cbn [fold_left]; lia).
+  change 1 with (num IPv6loopback) at 1. change 0 with (num IPv6unspecified) at 1.
+  change 65535 with (num v4InV6Prefix).
+  rewrite (num_eqb _ IPv6loopback HB) by (try reflexivity; repeat constructor).
+  rewrite (num_eqb _ IPv6unspecified HB) by (try reflexivity; repeat constructor).
+  rewrite (num_eqb _ v4InV6Prefix B12) by (try reflexivity; repeat constructor).
+  destruct (list_eqb [a0;a1;a2;a3;a4;a5;a6;a7;a8;a9;a10;a11] v4InV6Prefix) eqn:M.
+  - apply list_eqb_eq in M. unfold v4InV6Prefix in M. injection M as -> -> -> -> -> -> -> -> -> -> -> ->.
+    change [0;0;0;0;0;0;0;0;0;0;255;255;a12;a13;a14;a15] with (IPv4 a12 a13 a14 a15) at 1.
+    rewrite blocked_mapped, (blocked4 a12 a13 a14 a15) by assumption.
+    cbn. reflexivity.
+  - unfold revocationBlockedIP, IsLoopback, IsPrivate, IsLinkLocalUnicast, IsLinkLocalMulticast,
+      IsMulticast, IsUnspecified.
+    rewrite !To4_16, M.
+    assert (Z4 : list_eqb [a0;a1;a2;a3;a4;a5;a6;a7;a8;a9;a10;a11;a12;a13;a14;a15] IPv4zero = false).
+    { destruct (list_eqb [a0;a1;a2;a3;a4;a5;a6;a7;a8;a9;a10;a11;a12;a13;a14;a15] IPv4zero) eqn:E; [|reflexivity].
+      apply list_eqb_eq in E. unfold IPv4zero, IPv4, v4InV6Prefix in E. cbn [app] in E.
+      injection E as -> -> -> -> -> -> -> -> -> -> -> -> -> -> -> ->. cbn in M. discriminate. }
+    rewrite !Equal_same by reflexivity. cbn [length Nat.eqb at_ nth andb]. rewrite Z4.
+    rewrite (land_254 a0), (land_192 a1), (land_15 a1) by assumption.
+    assert (R1 : (a0 / 2 * 2 =? 252) = (a0 / 2 =? 126)) by (generalize (a0 / 2); clear; intros x; lia).
+    assert (R2 : ((a0 * 256 + a1) / 64 =? 1018) = (a0 =? 254) && (a1 / 64 * 64 =? 128)).
+    { clear - Hb Hb0. lia. }
+    rewrite R1, R2. cbn [andb]. btauto.
+Qed.
+
+(* ---- every length *)
+Lemma blocked_other a : length a <> 4%nat -> length a <> 16%nat -> revocationBlockedIP a = false.
+Proof.
+  intros N4 N16.
+  apply Nat.eqb_neq in N4. apply Nat.eqb_neq in N16.
+  assert (T : To4 a = None) by (unfold To4; rewrite N4, N16; reflexivity).
+  unfold revocationBlockedIP, IsLoopback, IsPrivate, IsLinkLocalUnicast, IsLinkLocalMulticast,
+    IsMulticast, IsUnspecified. rewrite T.
+  unfold Equal. change (length IPv6loopback) with 16%nat. change (length IPv4zero) with 16%nat.
+  change (length IPv6unspecified) with 16%nat. rewrite N4, N16. reflexivity.
+Qed.
+
+Lemma blocked_iff_spec a : bytes a -> revocationBlockedIP a = private_or_local a.
+Proof.
+  intros HB.
+  destruct (Nat.eq_dec (length a) 4) as [L4|N4].
+  - destruct a as [|a0 [|a1 [|a2 [|a3 [|a4 r]]]]]; try discriminate L4.
+    unfold private_or_local. cbn [length].
+    inversion HB as [|? ? H0 HB1]; subst. inversion HB1 as [|? ? H1 HB2]; subst.
+    inversion HB2 as [|? ? H2 HB3]; subst. inversion HB3 as [|? ? H3 _]; subst.
+    apply blocked4; assumption.
+  - destruct (Nat.eq_dec (length a) 16) as [L16|N16].
+    + destruct a as [|a0 [|a1 [|a2 [|a3 [|a4 [|a5 [|a6 [|a7 [|a8 [|a9 [|a10 [|a11 [|a12 [|a13 [|a14 [|a15
+        [|a16 r]]]]]]]]]]]]]]]]]; try discriminate L16.
+      unfold private_or_local. cbn [length]. apply blocked16. exact HB.
+    + rewrite (blocked_other a N4 N16). unfold private_or_local.
+      destruct (length a) as [|[|[|[|[|[|[|[|[|[|[|[|[|[|[|[|[|n]]]]]]]]]]]]]]]]]; try reflexivity; congruence.
+Qed.
+
+Lemma imageBox_is_revocation a : imageBoxBlockedIP a = revocationBlockedIP a.
+Proof. reflexivity. Qed.
+
+(* ---- the address the dialer sees *)
+Lemma dialTarget_mapped a : length a = 16%nat -> forall v, To4 a = Some v ->
+  exists b0 b1 b2 b3, a = IPv4 b0 b1 b2 b3 /\ v = [b0;b1;b2;b3].
+Proof.
+  intros L16 v.
+  destruct a as [|a0 [|a1 [|a2 [|a3 [|a4 [|a5 [|a6 [|a7 [|a8 [|a9 [|a10 [|a11 [|a12 [|a13 [|a14 [|a15
+        [|a16 r]]]]]]]]]]]]]]]]]; try discriminate L16.
+  rewrite To4_16.
+  destruct (list_eqb [a0;a1;a2;a3;a4;a5;a6;a7;a8;a9;a10;a11] v4InV6Prefix) eqn:M; [|discriminate].
+  intros E. injection E as <-. apply list_eqb_eq in M. unfold v4InV6Prefix in M.
+  injection M as -> -> -> -> -> -> -> -> -> -> -> ->.
+  exists a12, a13, a14, a15. split; reflexivity.
+Qed.
+
+Lemma To4_cases a : (To4 a = Some a /\ length a = 4%nat)
+                    \/ (length a = 16%nat /\ exists v, To4 a = Some v)
+                    \/ To4 a = None.
+Proof.
+  unfold To4. destruct (Nat.eqb (length a) 4) eqn:E4.
+  - left. apply Nat.eqb_eq in E4. auto.
+  - destruct (Nat.eqb (length a) 16) eqn:E16; cbn [andb].
+    + apply Nat.eqb_eq in E16.
+      destruct (isZeros (slice a 0 10) && (at_ a 10 =? 255) && (at_ a 11 =? 255)).
+      * right. left. split; [exact E16|eexists; reflexivity].
+      * right. right. reflexivity.
+    + right. right. reflexivity.
+Qed.
+
+Lemma blocked_dialTarget a : revocationBlockedIP (dialTarget a) = revocationBlockedIP a.
+Proof.
+  unfold dialTarget.
+  destruct (To4_cases a) as [[E _]|[[L [v E]]|E]]; rewrite E; try reflexivity.
+  destruct (dialTarget_mapped a L v E) as (b0 & b1 & b2 & b3 & -> & ->).
+  symmetry. apply blocked_mapped.
+Qed.
+
+Lemma bytes_dialTarget a : bytes a -> bytes (dialTarget a).
+Proof.
+  intros HB. unfold dialTarget.
+  destruct (To4_cases a) as [[E _]|[[L [v E]]|E]]; rewrite E; try exact HB.
+  destruct (dialTarget_mapped a L v E) as (b0 & b1 & b2 & b3 & -> & ->).
+  unfold IPv4 in HB. unfold bytes in *. apply Forall_app in HB. tauto.
+Qed.
+
+Lemma spec_dialTarget a : bytes a -> private_or_local (dialTarget a) = private_or_local a.
+Proof.
+  intros HB. rewrite <- !blocked_iff_spec by (try apply bytes_dialTarget; exact HB).
+  apply blocked_dialTarget.
 Qed.
